@@ -214,19 +214,21 @@ theorem close_once {s s' : State} {fin : Bool} {k : Nat} {c : Caller} {X : Nat} 
 
 /-- **close_once**, part 2: every operation addressed to a closed (absent) allocation fails as `absent`, i.e. without
 any state change — a second finalize or cancel by anybody, a write-pool lock, a write marker, a challenge response,
-an update. -/
+an update, a read marker. -/
 theorem closed_ops_fail {s : State} {k : Nat} (hk : s.allocs k = none) :
     (∀ fin c X per rates, step s (.close fin k c X per rates) = .error (.fail "absent")) ∧
     (∀ j v, step s (.wpLock k j v) = .error (.fail "absent")) ∧
     (∀ i sz mv, step s (.commit k i sz mv) = .error (.fail "absent")) ∧
     (∀ i D m V dp cr, step s (.respPass k i D m V dp cr) = .error (.fail "absent")) ∧
-    (∀ c v sz e ad rm rw cc dp ds, step s (.update k c v sz e ad rm rw cc dp ds) = .error (.fail "absent")) := by
-  refine ⟨?_, ?_, ?_, ?_, ?_⟩
+    (∀ c v sz e ad rm rw cc dp ds, step s (.update k c v sz e ad rm rw cc dp ds) = .error (.fail "absent")) ∧
+    (∀ i j p, step s (.readRedeem k i j p) = .error (.fail "absent")) := by
+  refine ⟨?_, ?_, ?_, ?_, ?_, ?_⟩
   · intro fin c X per rates; simp only [step, close, hk]
   · intro j v; simp only [step, wpLock, hk]
   · intro i sz mv; simp only [step, commit, hk]
   · intro i D m V dp cr; simp only [step, respPass, hk]
   · intro c v sz e ad rm rw cc dp ds; simp only [step, update, hk]
+  · intro i j p; simp only [step, readRedeem, hk]
 
 
 /-! ### a closed slot stays closed -/
@@ -406,6 +408,7 @@ theorem step_keeps {s s' : State} {op : Op} (h : stepRel s op s') : KeepsNone s 
       exact keepsNone_set ha rfl rfl
   | rpLock j v => exact keepsNone_frame (rpLock_frame h) (rpLock_frame13 h).2.1
   | rpUnlock j v => exact keepsNone_frame (rpUnlock_frame h) (rpUnlock_frame13 h).2.1
+  | readRedeem k i j p => exact keepsNone_frame (readRedeem_frame h) (readRedeem_frame13 h).2.1
   | tick dt => simp only [step] at h; cases h; exact keepsNone_frame ⟨rfl, rfl⟩ rfl
   | noop => simp only [step] at h; cases h; exact keepsNone_frame (Frame.refl _) rfl
 
